@@ -73,6 +73,7 @@ type Exec struct {
 	// models of the environment
 	ts         *threadState
 	analyzers  map[*Value]*analysisModel
+	lastAnalyzer *Value
 	poolItems  map[*Value][]Value
 	inPool     map[*Value]string
 	poolOrder  []*Value
@@ -86,6 +87,9 @@ type Exec struct {
 	merge *mergeCtx
 	depth int
 	in    *interner
+
+	globalCells map[*Value]string   // cells of package-level variables (incl. interior cells) -> name
+	globalInner map[*Value][]*Value // root cell -> interior cells
 }
 
 type pathEvent struct {
@@ -101,6 +105,19 @@ func (e *Exec) global(g *ssa.Global) *Value {
 		z := zero(g.Type().(*types.Pointer).Elem())
 		cell = &z
 		e.globals[g] = cell
+		if e.globalCells == nil {
+			e.globalCells = map[*Value]string{}
+			e.globalInner = map[*Value][]*Value{}
+		}
+		name := g.Pkg.Pkg.Name() + "." + g.Name()
+		e.globalCells[cell] = name
+		w := newWalker()
+		w.seenP[cell] = true
+		w.cell = func(c *Value) {
+			e.globalCells[c] = name
+			e.globalInner[cell] = append(e.globalInner[cell], c)
+		}
+		w.walkInner(z)
 	}
 	return cell
 }
@@ -712,6 +729,9 @@ func (fr *frame) visit(instr ssa.Instruction) continuation {
 		if e.merge != nil && !e.merge.cells[addr] {
 			panic(mergeAbort{"store inside pure region"})
 		}
+		if e.ts != nil {
+			e.memAccess(addr, true, fr.fn.Name())
+		}
 		e.store(addr, fr.get(ins.Val))
 	case *ssa.If:
 		cond := fr.term(ins.Cond)
@@ -955,6 +975,9 @@ func (e *Exec) unop(ins *ssa.UnOp, x Value) Value {
 	switch ins.Op {
 	case token.MUL:
 		p := x.(*Value)
+		if e.ts != nil && p != nil {
+			e.memAccess(p, false, "load")
+		}
 		if p != nil && len(e.inPool) > 0 {
 			if w, ok := e.inPool[p]; ok {
 				e.event("use-after-put", "use-after-put", fmt.Sprintf("load of %s while the object is in its pool (put at %s)", ins.X.Type(), w))
